@@ -752,7 +752,8 @@ impl Erasure {
             MethodKind::Setter => "setter",
           });
           if m.accessibility == Some(Accessibility::Private) {
-            self.leak("private-member-not-reduced/method", prop_name(&m.key));
+            let cat = if self.ambient() { "private-member-not-reduced/method-of-ambient-class" } else { "private-member-not-reduced/method" };
+            self.leak(cat, prop_name(&m.key));
           }
           let what = match m.kind {
             MethodKind::Method => "method",
@@ -774,7 +775,8 @@ impl Erasure {
               matches!(&*t.type_ann, TsType::TsKeywordType(k) if k.kind == TsKeywordTypeKind::TsAnyKeyword)
             });
             if !any || p.value.is_some() {
-              self.leak("private-member-not-reduced/property", prop_name(&p.key));
+              let cat = if self.ambient() { "private-member-not-reduced/property-of-ambient-class" } else { "private-member-not-reduced/property" };
+              self.leak(cat, prop_name(&p.key));
             }
             continue;
           }
@@ -1044,4 +1046,392 @@ pub fn ident_at(text: &str, byte: usize) -> Option<&str> {
     }
   }
   Some(&rest[..end])
+}
+
+/// byte span of the top-level item of `parsed` that declares `name`
+pub fn top_level_span(parsed: &ParsedSource, name: &str) -> Option<(usize, usize)> {
+  use deno_ast::SourceRangedForSpanned;
+  let deno_ast::ProgramRef::Module(module) = parsed.program_ref() else { return None };
+  let start = parsed.text_info_lazy().range().start;
+  for item in &module.body {
+    let mut v = vec![];
+    match item {
+      ModuleItem::Stmt(Stmt::Decl(d)) => decl_names(d, &mut v),
+      ModuleItem::ModuleDecl(ModuleDecl::ExportDecl(e)) => decl_names(&e.decl, &mut v),
+      ModuleItem::ModuleDecl(ModuleDecl::ExportDefaultDecl(d)) => match &d.decl {
+        DefaultDecl::Class(c) => v.push((c.ident.as_ref().map(|i| i.sym.to_string()).unwrap_or_default(), "class")),
+        DefaultDecl::Fn(f) => v.push((f.ident.as_ref().map(|i| i.sym.to_string()).unwrap_or_default(), "function")),
+        DefaultDecl::TsInterfaceDecl(i) => v.push((i.id.sym.to_string(), "interface")),
+      },
+      _ => {}
+    }
+    if v.iter().any(|(n, _)| n == name) {
+      let r = item.range();
+      return Some((r.start.as_byte_index(start), r.end.as_byte_index(start)));
+    }
+  }
+  None
+}
+
+// ------------------------------------------------------------ signature slots (C11)
+//
+// A "slot" is one place of a module-level declaration where the source can
+// write a type: parameter types, return types, property types, type
+// parameter lists, heritage clauses, interface bodies, type alias bodies.
+// Slots are keyed by a path that is stable under fast check (declaration
+// name, overload index, member name, parameter index), so the output's slots
+// can be compared with the original's by AST equality that ignores spans.
+
+use deno_ast::swc::common::EqIgnoreSpan;
+
+#[derive(Clone, Debug)]
+pub enum SlotVal {
+  Type(Box<TsType>),
+  TypeParams(Box<TsTypeParamDecl>),
+  Extends(Box<Expr>, Option<Box<TsTypeParamInstantiation>>),
+  Heritage(Vec<TsExprWithTypeArgs>),
+  Members(Vec<TsTypeElement>),
+  Names(Vec<String>),
+}
+
+impl SlotVal {
+  pub fn same(&self, other: &SlotVal) -> bool {
+    match (self, other) {
+      (SlotVal::Type(a), SlotVal::Type(b)) => a.eq_ignore_span(b),
+      (SlotVal::TypeParams(a), SlotVal::TypeParams(b)) => a.eq_ignore_span(b),
+      (SlotVal::Extends(a, ta), SlotVal::Extends(b, tb)) => a.eq_ignore_span(b) && ta.eq_ignore_span(tb),
+      (SlotVal::Heritage(a), SlotVal::Heritage(b)) => a.eq_ignore_span(b),
+      (SlotVal::Members(a), SlotVal::Members(b)) => a.eq_ignore_span(b),
+      (SlotVal::Names(a), SlotVal::Names(b)) => a == b,
+      _ => false,
+    }
+  }
+  /// `self` is `other | undefined`
+  pub fn is_nullable_of(&self, other: &SlotVal) -> bool {
+    if let (SlotVal::Type(a), SlotVal::Type(b)) = (self, other)
+      && let TsType::TsUnionOrIntersectionType(TsUnionOrIntersectionType::TsUnionType(u)) = &**a
+      && u.types.len() == 2
+      && u.types[0].eq_ignore_span(b)
+      && matches!(&*u.types[1], TsType::TsKeywordType(k) if k.kind == TsKeywordTypeKind::TsUndefinedKeyword)
+    {
+      return true;
+    }
+    false
+  }
+}
+
+#[derive(Default)]
+pub struct Slots {
+  pub slots: BTreeMap<String, SlotVal>,
+  /// parameter slots whose parameter has a default value
+  pub defaulted: BTreeSet<String>,
+  /// slot path prefixes of implementation signatures that follow overload
+  /// signatures (not part of the public signature)
+  pub overload_impls: BTreeSet<String>,
+}
+
+impl Slots {
+  fn put(&mut self, key: String, v: SlotVal) {
+    self.slots.insert(key, v);
+  }
+
+  fn params<'a>(&mut self, base: &str, pats: impl Iterator<Item = &'a Pat>) {
+    for (i, p) in pats.enumerate() {
+      let key = format!("{}/param {}", base, i);
+      let ann = match p {
+        Pat::Ident(b) => b.type_ann.as_ref(),
+        Pat::Array(a) => a.type_ann.as_ref(),
+        Pat::Object(o) => o.type_ann.as_ref(),
+        Pat::Rest(r) => r.type_ann.as_ref(),
+        Pat::Assign(a) => {
+          self.defaulted.insert(key.clone());
+          match &*a.left {
+            Pat::Ident(b) => b.type_ann.as_ref(),
+            Pat::Array(a) => a.type_ann.as_ref(),
+            Pat::Object(o) => o.type_ann.as_ref(),
+            _ => None,
+          }
+        }
+        _ => None,
+      };
+      if let Some(t) = ann {
+        self.put(key, SlotVal::Type(t.type_ann.clone()));
+      }
+    }
+  }
+
+  fn function(&mut self, base: &str, f: &Function) {
+    if f.body.is_some() && !base.ends_with("#0") {
+      self.overload_impls.insert(format!("{}/", base));
+    }
+    if let Some(tp) = &f.type_params {
+      self.put(format!("{}/type parameters", base), SlotVal::TypeParams(tp.clone()));
+    }
+    self.params(base, f.params.iter().map(|p| &p.pat));
+    if let Some(r) = &f.return_type {
+      self.put(format!("{}/return", base), SlotVal::Type(r.type_ann.clone()));
+    }
+  }
+
+  fn class(&mut self, base: &str, c: &Class) {
+    if let Some(tp) = &c.type_params {
+      self.put(format!("{}/type parameters", base), SlotVal::TypeParams(tp.clone()));
+    }
+    if let Some(sc) = &c.super_class {
+      self.put(format!("{}/extends", base), SlotVal::Extends(sc.clone(), c.super_type_params.clone()));
+    }
+    if !c.implements.is_empty() {
+      self.put(format!("{}/implements", base), SlotVal::Heritage(c.implements.clone()));
+    }
+    let mut seen: BTreeMap<String, usize> = BTreeMap::new();
+    let mut ctor_k = 0;
+    for m in &c.body {
+      match m {
+        ClassMember::Constructor(k) => {
+          if k.accessibility == Some(Accessibility::Private) {
+            continue;
+          }
+          let b = format!("{}/constructor#{}", base, ctor_k);
+          if k.body.is_some() && ctor_k > 0 {
+            self.overload_impls.insert(format!("{}/", b));
+          }
+          ctor_k += 1;
+          for (i, p) in k.params.iter().enumerate() {
+            match p {
+              ParamOrTsParamProp::Param(p) => {
+                // reuse params() on a single element with the right index
+                let key = format!("{}/param {}", b, i);
+                let mut tmp = Slots::default();
+                tmp.params("x", std::iter::once(&p.pat));
+                if let Some(v) = tmp.slots.remove("x/param 0") {
+                  self.put(key.clone(), v);
+                }
+                if !tmp.defaulted.is_empty() {
+                  self.defaulted.insert(key);
+                }
+              }
+              ParamOrTsParamProp::TsParamProp(pp) => {
+                let (name, ann, defaulted) = match &pp.param {
+                  TsParamPropParam::Ident(b) => (b.id.sym.to_string(), b.type_ann.as_ref(), false),
+                  TsParamPropParam::Assign(a) => match &*a.left {
+                    Pat::Ident(b) => (b.id.sym.to_string(), b.type_ann.as_ref(), true),
+                    _ => continue,
+                  },
+                };
+                if let Some(t) = ann {
+                  let key = format!("{}/param {}", b, i);
+                  self.put(key.clone(), SlotVal::Type(t.type_ann.clone()));
+                  if defaulted {
+                    self.defaulted.insert(key);
+                  }
+                  if pp.accessibility != Some(Accessibility::Private) {
+                    // the property the parameter declares
+                    self.put(format!("{}/property {}", base, name), SlotVal::Type(t.type_ann.clone()));
+                  }
+                }
+              }
+            }
+          }
+        }
+        ClassMember::Method(m) => {
+          if m.accessibility == Some(Accessibility::Private) {
+            continue;
+          }
+          let name = format!(
+            "{}{}{}",
+            if m.is_static { "static " } else { "" },
+            match m.kind {
+              MethodKind::Method => "",
+              MethodKind::Getter => "get ",
+              MethodKind::Setter => "set ",
+            },
+            member_key(&m.key)
+          );
+          let k = seen.entry(name.clone()).or_default();
+          let b = format!("{}/method {}#{}", base, name, k);
+          *k += 1;
+          self.function(&b, &m.function);
+        }
+        ClassMember::ClassProp(p) => {
+          if p.accessibility == Some(Accessibility::Private) {
+            continue;
+          }
+          if let Some(t) = &p.type_ann {
+            self.put(
+              format!("{}/property {}{}", base, if p.is_static { "static " } else { "" }, member_key(&p.key)),
+              SlotVal::Type(t.type_ann.clone()),
+            );
+          }
+        }
+        ClassMember::TsIndexSignature(s) => {
+          if let Some(t) = &s.type_ann {
+            self.put(format!("{}/index signature", base), SlotVal::Type(t.type_ann.clone()));
+          }
+        }
+        ClassMember::AutoAccessor(a) => {
+          if a.accessibility == Some(Accessibility::Private) {
+            continue;
+          }
+          if let (Key::Public(k), Some(t)) = (&a.key, &a.type_ann) {
+            self.put(format!("{}/accessor {}", base, member_key(k)), SlotVal::Type(t.type_ann.clone()));
+          }
+        }
+        _ => {}
+      }
+    }
+  }
+
+  fn decl(&mut self, prefix: &str, d: &Decl, fn_seen: &mut BTreeMap<String, usize>) {
+    match d {
+      Decl::Fn(f) => {
+        let k = fn_seen.entry(f.ident.sym.to_string()).or_default();
+        let b = format!("{}function {}#{}", prefix, f.ident.sym, k);
+        *k += 1;
+        self.function(&b, &f.function);
+      }
+      Decl::Class(c) => self.class(&format!("{}class {}", prefix, c.ident.sym), &c.class),
+      Decl::TsInterface(i) => self.interface(prefix, i),
+      Decl::TsTypeAlias(t) => {
+        let b = format!("{}type {}", prefix, t.id.sym);
+        if let Some(tp) = &t.type_params {
+          self.put(format!("{}/type parameters", b), SlotVal::TypeParams(tp.clone()));
+        }
+        self.put(b, SlotVal::Type(t.type_ann.clone()));
+      }
+      Decl::TsEnum(e) => {
+        self.put(
+          format!("{}enum {}/member names", prefix, e.id.sym),
+          SlotVal::Names(
+            e.members
+              .iter()
+              .map(|m| match &m.id {
+                TsEnumMemberId::Ident(i) => i.sym.to_string(),
+                TsEnumMemberId::Str(s) => s.value.to_string_lossy().to_string(),
+              })
+              .collect(),
+          ),
+        );
+      }
+      Decl::Var(v) => {
+        for d in &v.decls {
+          if let Pat::Ident(b) = &d.name {
+            let base = format!("{}variable {}", prefix, b.id.sym);
+            if let Some(t) = &b.type_ann {
+              self.put(format!("{}/type", base), SlotVal::Type(t.type_ann.clone()));
+            }
+            match d.init.as_deref() {
+              Some(Expr::Arrow(a)) => {
+                let fb = format!("{}/function", base);
+                if let Some(tp) = &a.type_params {
+                  self.put(format!("{}/type parameters", fb), SlotVal::TypeParams(tp.clone()));
+                }
+                self.params(&fb, a.params.iter());
+                if let Some(r) = &a.return_type {
+                  self.put(format!("{}/return", fb), SlotVal::Type(r.type_ann.clone()));
+                }
+              }
+              Some(Expr::Fn(f)) => self.function(&format!("{}/function", base), &f.function),
+              _ => {}
+            }
+          }
+        }
+      }
+      Decl::TsModule(m) => {
+        if let (TsModuleName::Ident(id), Some(body)) = (&m.id, &m.body) {
+          self.namespace_body(&format!("{}namespace {}/", prefix, id.sym), body);
+        }
+      }
+      Decl::Using(_) => {}
+    }
+  }
+
+  fn namespace_body(&mut self, prefix: &str, body: &TsNamespaceBody) {
+    match body {
+      TsNamespaceBody::TsModuleBlock(b) => {
+        let mut fn_seen = BTreeMap::new();
+        for item in &b.body {
+          self.module_item(prefix, item, &mut fn_seen);
+        }
+      }
+      TsNamespaceBody::TsNamespaceDecl(n) => {
+        self.namespace_body(&format!("{}namespace {}/", prefix, n.id.sym), &n.body);
+      }
+    }
+  }
+
+  fn interface(&mut self, prefix: &str, i: &TsInterfaceDecl) {
+    let b = format!("{}interface {}", prefix, i.id.sym);
+    if let Some(tp) = &i.type_params {
+      self.put(format!("{}/type parameters", b), SlotVal::TypeParams(tp.clone()));
+    }
+    if !i.extends.is_empty() {
+      self.put(format!("{}/extends", b), SlotVal::Heritage(i.extends.clone()));
+    }
+    // interfaces merge: number the bodies
+    let mut k = 0;
+    while self.slots.contains_key(&format!("{}/body#{}", b, k)) {
+      k += 1;
+    }
+    self.put(format!("{}/body#{}", b, k), SlotVal::Members(i.body.body.clone()));
+  }
+
+  fn module_item(&mut self, prefix: &str, item: &ModuleItem, fn_seen: &mut BTreeMap<String, usize>) {
+    match item {
+      ModuleItem::Stmt(Stmt::Decl(d)) => self.decl(prefix, d, fn_seen),
+      ModuleItem::ModuleDecl(ModuleDecl::ExportDecl(e)) => self.decl(prefix, &e.decl, fn_seen),
+      ModuleItem::ModuleDecl(ModuleDecl::ExportDefaultDecl(d)) => match &d.decl {
+        DefaultDecl::Class(c) => {
+          let n = c.ident.as_ref().map(|i| i.sym.to_string()).unwrap_or("default".into());
+          self.class(&format!("{}class {}", prefix, n), &c.class);
+        }
+        DefaultDecl::Fn(f) => {
+          let n = f.ident.as_ref().map(|i| i.sym.to_string()).unwrap_or("default".into());
+          let k = fn_seen.entry(n.clone()).or_default();
+          let b = format!("{}function {}#{}", prefix, n, k);
+          *k += 1;
+          self.function(&b, &f.function);
+        }
+        DefaultDecl::TsInterfaceDecl(i) => self.interface(prefix, i),
+      },
+      _ => {}
+    }
+  }
+}
+
+fn member_key(k: &PropName) -> String {
+  match k {
+    PropName::Computed(c) => match &*c.expr {
+      Expr::Member(m) => match (&*m.obj, &m.prop) {
+        (Expr::Ident(o), MemberProp::Ident(p)) => format!("[{}.{}]", o.sym, p.sym),
+        _ => "[computed]".to_string(),
+      },
+      Expr::Ident(i) => format!("[{}]", i.sym),
+      Expr::Lit(Lit::Str(s)) => s.value.to_string_lossy().to_string(),
+      _ => "[computed]".to_string(),
+    },
+    other => prop_name(other),
+  }
+}
+
+/// parse `text` without scope analysis (identifier contexts all empty, so
+/// AST equality is name equality) and collect its signature slots
+pub fn signature_slots(specifier: &ModuleSpecifier, text: &str, media: MediaType) -> Option<Slots> {
+  let parsed = parse_ts(specifier, text, media, false).ok()?;
+  let mut s = Slots::default();
+  let mut fn_seen = BTreeMap::new();
+  match parsed.program_ref() {
+    deno_ast::ProgramRef::Module(m) => {
+      for item in &m.body {
+        s.module_item("", item, &mut fn_seen);
+      }
+    }
+    deno_ast::ProgramRef::Script(sc) => {
+      for st in &sc.body {
+        if let Stmt::Decl(d) = st {
+          s.decl("", d, &mut fn_seen);
+        }
+      }
+    }
+  }
+  Some(s)
 }
